@@ -24,12 +24,14 @@ def consts(path):
 
 def main():
     props = [json.loads(l) for l in open(os.path.join(VERIF, "properties.jsonl"))]
+    # properties whose check has been integrated (reviewed, run on the unchanged tree, committed)
+    ready = set(open(os.path.join(HERE, "ready.txt")).read().split())
     checks, na = [], []
     for p in props:
         pid = p["id"]
         path = os.path.join(HERE, "props", pid.lower() + ".py")
         c = consts(path) if os.path.exists(path) else {}
-        if not c.get("CLAIMED", False):
+        if not c.get("CLAIMED", False) or pid not in ready:
             na.append({"property_id": pid,
                        "reason": c.get("NA_REASON", "check not built yet in this round; no claim is made (see DESIGN.md §7 for the plan)")})
             continue
